@@ -36,6 +36,9 @@ func (g *gen) desiredChild(k kidSpec, name, ns, app string, variant int) J {
 	if g.r.Chance(1, 3) {
 		spec["ports"] = A{J{"containerPort": int64(80), "protocol": "TCP"}}
 	}
+	if g.r.Chance(1, 4) {
+		spec["sidecars"] = A{} // a list the hook owns and wants empty; others may add entries of their own
+	}
 	o["spec"] = spec
 	if g.r.Chance(1, 5) {
 		o["status"] = J{"phase": "Wanted"} // a hook that (wrongly but harmlessly) returns a status block
@@ -176,6 +179,15 @@ func (g *gen) basic(family string, i int, seed uint64) *scenario {
 		case 2:
 			ref.Op, ref.Data = "edit", J{"foreign": J{"k": "v"}}
 			sc.Features = append(sc.Features, "drift-foreign-field")
+			if sp, ok := c["spec"].(J); ok {
+				if _, has := sp["sidecars"]; has {
+					// somebody injects an entry into the list the hook keeps empty
+					sp2 := runtime.DeepCopyJSON(sp)
+					sp2["sidecars"] = A{J{"name": "injected", "image": "mesh:1"}}
+					ref.Data = J{"spec": sp2}
+					sc.Features = append(sc.Features, "foreign-entry-in-empty-desired-list")
+				}
+			}
 		case 3:
 			ref.Op = "orphan"
 			sc.Features = append(sc.Features, "orphan-matching")
@@ -804,6 +816,10 @@ func (g *gen) rollout(i int, seed uint64, fair bool) *scenario {
 		sc.Hook.OmitStatus = true
 	case 1:
 		sc.Hook.Status = J{"conditions": A{J{"type": "Updated", "status": "Unknown"}, J{"type": "Ready", "status": "True"}}}
+	case 2:
+		// a hook that passes the parent's current conditions through (the rollout condition of the last sync included)
+		sc.Hook.EchoParentConditions = true
+		sc.Features = append(sc.Features, "hook-echoes-parent-conditions")
 	}
 	if r.Chance(1, 3) {
 		sc.Hook.Reverse = true
@@ -818,6 +834,11 @@ func (g *gen) rollout(i int, seed uint64, fair bool) *scenario {
 	case 1:
 		healthy.Data["observedGenerationAsString"] = true // legal in a schemaless custom resource; must be ignored
 		sc.Features = append(sc.Features, "observed-generation-not-integer")
+	}
+	if len(kid.Checks) == 0 && r.Bool() {
+		// a kind without status checks whose objects report nothing at all (ConfigMap-like)
+		healthy.Data = J{"bare": true}
+		sc.Features = append(sc.Features, "children-without-status")
 	}
 	sickly := extOp{Op: "healthy-all", APIVersion: kid.APIVersion, Kind: kid.Kind, Data: J{"reason": "CrashLoopBackOff"}}
 	sc.Setup = []extOp{healthy}
@@ -996,6 +1017,9 @@ func (g *gen) converge(i int, seed uint64) *scenario {
 	case 3:
 		sc.Ctl.SSA = true
 		sc.Features = append(sc.Features, "ssa")
+	case 4:
+		sc.Hook.Kind = "echo-meta"
+		sc.Features = append(sc.Features, "hook-echo-annotations")
 	}
 	sc.Rounds = nil
 	n := 6 + 2*len(sc.Hook.Children)
@@ -1014,6 +1038,25 @@ func generateScenarios(prop string, seed uint64, n int, adv bool) []*scenario {
 		switch {
 		case prop == "C02" && i%2 == 1:
 			out = append(out, g.race(i, s))
+		case prop == "C02" && i%4 == 2:
+			// adoption races, with a hook that then changes its mind (writes and deletes follow the claim)
+			sc := g.adoptrace(i, s)
+			h2 := sc.Hook
+			h2.Children = nil
+			for _, c := range sc.Hook.Children {
+				switch r.Intn(3) {
+				case 0: // no longer desired
+				case 1:
+					c2 := runtime.DeepCopyJSON(c)
+					c2["spec"].(J)["replicas"] = int64(5)
+					h2.Children = append(h2.Children, c2)
+				default:
+					h2.Children = append(h2.Children, c)
+				}
+			}
+			sc.Hook2 = &h2
+			sc.Features = append(sc.Features, "hook-changes-mind")
+			out = append(out, sc)
 		case prop == "C02" && i%8 == 0:
 			sc := g.basic("basic", i, s)
 			sc.Ctl.SSA = true
